@@ -5,6 +5,7 @@
 
 int drv_sched(int argc, char **argv);
 int drv_sweep(int argc, char **argv);
+int drv_cells(int argc, char **argv);
 
 int
 main(int argc, char **argv)
@@ -18,6 +19,8 @@ main(int argc, char **argv)
         hx_install_handlers();
         if (!strcmp(argv[1], "sched"))
                 return drv_sched(argc - 2, argv + 2);
+        if (!strcmp(argv[1], "cells"))
+                return drv_cells(argc - 2, argv + 2);
         if (!strcmp(argv[1], "sweep"))
                 return drv_sweep(argc - 2, argv + 2);
         fprintf(stderr, "unknown mode %s\n", argv[1]);
